@@ -37,8 +37,16 @@ def tSpan (segs : List (Seg α)) : Option (α × α) :=
 def hit (t : α) (s : Seg α) : Bool :=
   decide (inSeg t (segLeft s.xold s.h) (segRight s.xold s.h) (tol (segLeft s.xold s.h)) (tol (segRight s.xold s.h)))
 
-/-- `find_segment`: the first segment whose closed interval (± tol) contains `t` -/
-def findSeg (segs : List (Seg α)) (t : α) : Option (Seg α) := segs.find? (hit t)
+/-- exact containment in the closed interval of one segment -/
+def hitExact (t : α) (s : Seg α) : Bool :=
+  decide (inSegExact t (segLeft s.xold s.h) (segRight s.xold s.h))
+
+/-- `find_segment`: the first segment whose closed interval contains `t`; failing that, the first one that contains
+    it within the slack -/
+def findSeg (segs : List (Seg α)) (t : α) : Option (Seg α) :=
+  match segs.find? (hitExact t) with
+  | some s => some s
+  | none => segs.find? (hit t)
 
 /-- `find_segment_extrapolate` -/
 def findExtrap (segs : List (Seg α)) (t : α) : Option (Seg α) :=
